@@ -30,6 +30,8 @@ pub fn run(rng: &mut Rng, n: usize, out: &mut Out, which: &str) {
                 // candidates: play-outs and small positions with heavy pieces; keep those with a mate in one (part a)
                 // or with both kinds of moves (part b)
                 let b = if rng.chance(1, 2) { g.playout(rng, 120) } else { match heavy_small(&g, rng) { Some(b) => b, None => continue } };
+                let mut b = b;
+                crate::csearch::vary_counters(&mut b, rng);
                 if !crate::refchess::valid(&b) { continue; }
                 let ms = g.mg.generate_moves(&b);
                 if ms.is_empty() { continue; }
@@ -47,6 +49,7 @@ pub fn run(rng: &mut Rng, n: usize, out: &mut Out, which: &str) {
                     for d in 1..=4u8 {
                         if d == 4 && crate::refchess::men(&b) > 7 { continue; }
                         if d == 3 && crate::refchess::men(&b) > 14 { continue; }
+                        if d >= 2 && crate::csearch::nodes_capped(&b, d, 40000) >= 40000 { out.count("skipped_explosive_search"); continue; }
                         let a = out.run(&mut st, &format!("s.fresh {} {}", bt, d));
                         let f: Vec<&str> = a.split_whitespace().collect();
                         if f.len() >= 2 {
@@ -62,6 +65,7 @@ pub fn run(rng: &mut Rng, n: usize, out: &mut Out, which: &str) {
                     if allows.iter().filter(|x| !**x).count() == 1 { out.count("positions_with_single_safe_move"); }
                     for d in 2..=3u8 {
                         if d == 3 && crate::refchess::men(&b) > 10 { continue; }
+                        if crate::csearch::nodes_capped(&b, d, 40000) >= 40000 { out.count("skipped_explosive_search"); continue; }
                         let a = out.run(&mut st, &format!("s.fresh {} {}", bt, d));
                         let f: Vec<&str> = a.split_whitespace().collect();
                         if f.len() >= 2 { out.run(&mut st, &format!("s.judge {} safe {}", bt, f[1])); out.count(&format!("safe_depth_{}", d)); }
@@ -78,12 +82,14 @@ pub fn run(rng: &mut Rng, n: usize, out: &mut Out, which: &str) {
                 for _ in 0..rng.below(4) {
                     let b = pick_search_position(&g, &mut st, rng, out, 2000);
                     let lim = match rng.below(3) { 0 => format!("nodes:{}", 1 + rng.below(200)), 1 => format!("polls:{}", rng.below(100)), _ => "none".into() };
-                    out.run(&mut st, &format!("s.go {} {} {}", board_text(&b), 1 + rng.below(3), lim));
+                    let d0 = crate::csearch::affordable_depth(&b, 1 + rng.below(3) as u8, 30000);
+                    if d0 == 0 { out.count("skipped_explosive_search"); continue; }
+                    out.run(&mut st, &format!("s.go {} {} {}", board_text(&b), d0, lim));
                     out.count("earlier_searches");
                 }
                 let b = pick_search_position(&g, &mut st, rng, out, 2000);
                 let bt = board_text(&b);
-                let d = 1 + rng.below(3);
+                let d = crate::csearch::affordable_depth(&b, 1 + rng.below(3) as u8, 30000).max(1);
                 // deadline at every early poll (incl. 0 = zero budget), then sampled, then none
                 let mut lims: Vec<String> = (0..12).map(|k| format!("polls:{}", k)).collect();
                 for _ in 0..6 { lims.push(format!("polls:{}", rng.below(2000))); lims.push(format!("nodes:{}", rng.below(1500))); }
